@@ -50,6 +50,7 @@ func init() {
 			{ID: "C03-R18", Title: "a deferred Unlock finds its mutex locked on every path (unlock of an unlocked mutex is fatal)", Floor: 5, Run: deferredUnlockFindsLockHeld},
 			{ID: "C03-R19", Title: "results of reflect.Value.Interface() are not asserted blindly", Floor: 1, Run: reflectedValuesNotAssertedBlindly},
 			{ID: "C03-R20", Title: "reflect.TypeOf of a handed-in value is guarded against nil", Floor: 1, Run: typeOfGuardedAgainstNil},
+			{ID: "C03-R21", Title: "integers are divided only by tested or constant divisors on the unprotected surface", Floor: 1, Run: integerDivisionGuarded},
 		},
 	})
 }
